@@ -105,8 +105,9 @@ def solve_lp(c, A, b, minimize, eps, max_iter, num=F):
         for i in range(m):
             if basis[i] in arts:
                 mat[-1] = [a - p for a, p in zip(mat[-1], mat[i])]
+        tolerance = eps * max(1, -mat[-1][-1])          # commit b6b6dd1: relative to the initial total infeasibility
         st, iters = _phase2(mat, basis, m, eps, max_iter)
-        if mat[-1][-1] < -eps:
+        if mat[-1][-1] < -tolerance:
             return ("MAX_ITER" if st == "MAX_ITER" else "INFEASIBLE"), [num(0)] * n, None, iters
         for i in range(m):
             if basis[i] in arts:
@@ -132,9 +133,7 @@ def solve_lp(c, A, b, minimize, eps, max_iter, num=F):
     for i in range(m):
         if basis[i] < n:
             sol[basis[i]] = mat[i][-1]
-    obj = -mat[-1][-1]
-    if not minimize:
-        obj = -obj
+    obj = sum((num(cj) * xj for cj, xj in zip(c, sol)), num(0))      # commit 0767acf: the objective of the returned point
     return st, sol, obj, iters + it2
 
 
@@ -198,10 +197,11 @@ def solve_node(c, A, b, lower, upper, minimize, eps, max_iter, fr):
             b_red.append(hi)
     c_red = [c[j] for j in free]
     fobj = sum((c[j] * fixed[j] for j in fixed), F(0))
-    st, x, z, _ = solve_lp(c_red, A_red, b_red, minimize, eps, max_iter)
+    lp_eps = min(eps, F(1, 10**10))                     # commit cccee4d: solve_lp(..., eps=min(eps, 1e-10))
+    st, x, z, _ = solve_lp(c_red, A_red, b_red, minimize, lp_eps, max_iter)
     fr.last_float_obj = None
     if fr.track_float and st == "OPTIMAL":
-        stf, _, zf, _ = solve_lp(c_red, A_red, b_red, minimize, float(eps), max_iter, num=float)
+        stf, _, zf, _ = solve_lp(c_red, A_red, b_red, minimize, float(lp_eps), max_iter, num=float)
         if stf == "OPTIMAL":
             fr.last_float_obj = zf + float(fobj)
     if st == "INFEASIBLE":
